@@ -135,6 +135,14 @@ func (h *Host) registerRest() {
 			ServiceName: types.OraclePriceServiceName,
 			Provider:    types.OraclePriceServiceProvider,
 			ReuquestService: func(ctx sdk.Context, input string) (string, string) {
+				// what the module answers is a function of the request alone (and, in multi-token runs, of the rate table):
+				// a caller may ask for a malformed or a refusing answer
+				switch {
+				case indexOf(input, `"mode":"bad"`) >= 0:
+					return `{"code":200,"message":""}`, `{"body":{"rate":"1.0"}}` // no header: fails the output schema
+				case indexOf(input, `"mode":"err"`) >= 0:
+					return `{"code":500,"message":"refused"}`, ""
+				}
 				if h.cfg.MultiToken {
 					h.rateAsked++
 					return rateReply(h.rates, input)
@@ -215,7 +223,12 @@ func NewHost(cfg *Config) *Host {
 	sg := types.GenesisState{Params: serviceParams(cfg)}
 	if cfg.ModuleService || cfg.MultiToken {
 		sg.Definitions = append(sg.Definitions, types.GenOraclePriceSvcDefinition())
-		sg.Bindings = append(sg.Bindings, types.GenOraclePriceSvcBinding("stake"))
+		sb := types.GenOraclePriceSvcBinding("stake")
+		if cfg.SysPrice != "" {
+			// a chain whose genesis prices the module's system binding above the built-in 0 (still a zero deposit)
+			sb.Pricing = fmt.Sprintf(`{"price":"%s"}`, cfg.SysPrice)
+		}
+		sg.Bindings = append(sg.Bindings, sb)
 	}
 	gs[types.ModuleName] = cdc.MustMarshalJSON(&sg)
 
